@@ -108,6 +108,9 @@ def w_join_config(job):
         ltok = [None if isna(v) else reft.tokenize(v) for v in lvals]
         rtok = [None if isna(v) else reft.tokenize(v) for v in rvals]
         for t in job['ths']:
+            if isinstance(t, dict):
+                import numpy as np
+                t = np.float64(t['np']) if isinstance(t['np'], float) else np.int64(t['np'])
             for op in job['ops']:
                 f = OPS[op]
                 # reference classification of every pair
@@ -241,6 +244,9 @@ def config_jobs(props, quick=True):
         for variant in (0, 1):
             for t in ths:
                 for tk in toks:
+                    if variant == 1 and t in (1.0, 0.5, 1, 2):
+                        # the same threshold as another numeric type (int / numpy scalar), marked for the worker
+                        t = {'np': t} if t in (0.5, 2) else int(t)
                     jobs.append({'meas': meas, 'variant': variant, 'ths': [t], 'ops': ops, 'toks': [tk],
                                  'n_jobs': [1, 3] if quick else [1, 2, 4], 'props': list(props)})
     return jobs
